@@ -499,9 +499,62 @@ theorem parseName_expName (inst : Option Str) (name : Str) (h : nameOK inst name
 
 def expIn (o : Out) : Str := expName o.instIn o.input
 
+
+
+theorem splitOnAux_ne_nil (sep : Char) (s cur : Str) : splitOnAux sep s cur ≠ [] := by
+  induction s generalizing cur with
+  | nil => simp [splitOnAux]
+  | cons c cs ih =>
+    simp only [splitOnAux]
+    split
+    · simp
+    · exact ih _
+
+theorem splitOnAux_append (sep : Char) (a b cur : Str) :
+    splitOnAux sep (a ++ sep :: b) cur = splitOnAux sep a cur ++ splitOn sep b := by
+  induction a generalizing cur with
+  | nil => simp [splitOnAux, splitOn]
+  | cons c cs ih =>
+    simp only [List.cons_append, splitOnAux]
+    split
+    · rw [ih]; simp
+    · exact ih _
+
+theorem splitOn_append (sep : Char) (a b : Str) :
+    splitOn sep (a ++ sep :: b) = splitOn sep a ++ splitOn sep b := splitOnAux_append sep a b []
+
+theorem joinWith_cons_ne (sep a : Str) (l : List Str) (h : l ≠ []) :
+    joinWith sep (a :: l) = a ++ sep ++ joinWith sep l := by
+  cases l with
+  | nil => exact absurd rfl h
+  | cons b r => rfl
+
+theorem join_splitAux (sep : Char) (s cur : Str) :
+    joinWith [sep] (splitOnAux sep s cur) = cur.reverse ++ s := by
+  induction s generalizing cur with
+  | nil => simp [splitOnAux, joinWith]
+  | cons c cs ih =>
+    simp only [splitOnAux]
+    split
+    · rename_i hc
+      have : c = sep := by simpa using hc
+      subst this
+      rw [joinWith_cons_ne _ _ _ (splitOnAux_ne_nil _ _ _), ih]
+      simp
+    · rw [ih]; simp
+
+theorem join_split (sep : Char) (s : Str) : joinWith [sep] (splitOn sep s) = s := by
+  have := join_splitAux sep s []
+  simpa [splitOn] using this
+
+
+/-- an output whose fields survive: instance parts well formed, a numeric delay, no ESC anywhere;
+with the comma separator no comma in target / input / delay (commas in the *parameter* are
+re-joined by the reader). -/
 def OutOK (o : Out) : Bool :=
   nameOK o.instOut o.output && nameOK o.instIn o.input && isNum o.delay &&
-  [o.target, expIn o, o.params, o.delay].all (fun f => !f.contains '\x1b' && (!o.comma || !f.contains ','))
+  [o.target, expIn o, o.params, o.delay].all (fun f => !f.contains '\x1b') &&
+  (!o.comma || [o.target, expIn o, o.delay].all (fun f => !f.contains ','))
 
 theorem projOut_eq (o : Out) : projOut o = { o with instOut := normInst o.instOut, instIn := normInst o.instIn } := by
   cases o with
@@ -511,12 +564,12 @@ theorem projOut_eq (o : Out) : projOut o = { o with instOut := normInst o.instOu
 theorem parseOut_export (o : Out) (h : OutOK o = true) : parseOut (exportOut o) = .ok (projOut o) := by
   simp only [OutOK, Bool.and_eq_true, List.all_cons, List.all_nil, Bool.and_true, Bool.not_eq_true',
     Bool.or_eq_true, List.contains_eq_mem, decide_eq_false_iff_not] at h
-  obtain ⟨⟨⟨hn1, hn2⟩, hd⟩, ⟨ht1, ht2⟩, ⟨hi1, hi2⟩, ⟨hp1, hp2⟩, ⟨hd1, hd2⟩⟩ := h
+  obtain ⟨⟨⟨⟨hn1, hn2⟩, hd⟩, ht1, hi1, hp1, hd1⟩, hcomma⟩ := h
   have hte : ('\x1b' : Char) ∉ showInt o.times := notMem_showInt _ _ (by decide) (by decide)
   have htc : (',' : Char) ∉ showInt o.times := notMem_showInt _ _ (by decide) (by decide)
   rw [projOut_eq]
   unfold exportOut parseOut
-  simp only [expIn] at hi1 hi2
+  simp only [expIn] at hi1 hcomma
   cases hc : o.comma with
   | false =>
     have hsep : outSep false = '\x1b' := rfl
@@ -532,37 +585,61 @@ theorem parseOut_export (o : Out) (h : OutOK o = true) : parseOut (exportOut o) 
         splitOn_single _ _ hte]
     simp only [List.cons_append]
     rw [hv, hesc]
-    simp only [outFields, outBuild]
+    simp only [outFields, outBuild, List.length_cons, List.length_nil, Nat.reduceAdd, beq_self_eq_true, if_true]
     rw [parseName_expName _ _ hn1]
     simp only []
     rw [parseName_expName _ _ hn2]
     simp [hd, parseInt_showInt]
   | true =>
     have hsep : outSep true = ',' := rfl
-    replace ht2 : ',' ∉ o.target := by simpa [hc] using ht2
-    replace hi2 : ',' ∉ expName o.instIn o.input := by simpa [hc] using hi2
-    replace hp2 : ',' ∉ o.params := by simpa [hc] using hp2
-    replace hd2 : ',' ∉ o.delay := by simpa [hc] using hd2
+    have hcm : ',' ∉ o.target ∧ ',' ∉ expName o.instIn o.input ∧ ',' ∉ o.delay := by
+      rcases hcomma with hcf | hcf
+      · rw [hc] at hcf; cases hcf
+      · exact hcf
+    obtain ⟨ht2, hi2, hd2⟩ := hcm
     simp only [hsep, List.append_assoc, List.singleton_append]
     have hesc : outEsc (o.target ++ ',' :: (expName o.instIn o.input ++ ',' :: (o.params ++ ',' :: (o.delay ++ ',' :: showInt o.times)))) = false := by
       simp [outEsc, ht1, hi1, hp1, hd1, hte]
     have hv : outVals (o.target ++ ',' :: (expName o.instIn o.input ++ ',' :: (o.params ++ ',' :: (o.delay ++ ',' :: showInt o.times))))
-        = [o.target, expName o.instIn o.input, o.params, o.delay, showInt o.times] := by
+        = o.target :: expName o.instIn o.input :: (splitOn ',' o.params ++ [o.delay, showInt o.times]) := by
       unfold outVals
       rw [hesc]
       simp only [Bool.false_eq_true, if_false]
-      rw [splitOn_cons _ _ _ ht2, splitOn_cons _ _ _ hi2, splitOn_cons _ _ _ hp2, splitOn_cons _ _ _ hd2,
+      rw [splitOn_cons _ _ _ ht2, splitOn_cons _ _ _ hi2, splitOn_append, splitOn_cons _ _ _ hd2,
         splitOn_single _ _ htc]
     simp only [List.cons_append]
     rw [hv, hesc]
-    simp only [outFields, outBuild]
+    have hjoin : joinComma (splitOn ',' o.params) = o.params := join_split ',' o.params
+    have hne : splitOn ',' o.params ≠ [] := splitOnAux_ne_nil _ _ _
+    have hfields : outFields false (o.target :: expName o.instIn o.input :: (splitOn ',' o.params ++ [o.delay, showInt o.times]))
+        = .ok (o.target, expName o.instIn o.input, o.params, o.delay, showInt o.times) := by
+      cases hps : splitOn ',' o.params with
+      | nil => exact absurd hps hne
+      | cons p r =>
+        cases r with
+        | nil =>
+          rw [hps] at hjoin
+          simp only [joinComma, joinWith] at hjoin
+          simp [outFields, hjoin]
+        | cons p2 r2 =>
+          rw [hps] at hjoin
+          have hlen : ((o.target :: expName o.instIn o.input :: ((p :: p2 :: r2) ++ [o.delay, showInt o.times])).length == 5) = false := by
+            simp only [List.length_cons, List.length_append, List.length_nil, beq_eq_false_iff_ne, ne_eq]; omega
+          have hgt : decide ((o.target :: expName o.instIn o.input :: ((p :: p2 :: r2) ++ [o.delay, showInt o.times])).length > 5) = true := by
+            simp only [List.length_cons, List.length_append, List.length_nil, decide_eq_true_eq]; omega
+          simp only [outFields, hlen, Bool.false_eq_true, if_false, Bool.not_false, Bool.true_and, hgt, if_true]
+          simp only [List.reverse_append, List.reverse_cons, List.reverse_nil, List.nil_append, List.cons_append,
+            List.singleton_append]
+          simp only [List.reverse_append, List.reverse_cons, List.reverse_nil, List.nil_append, List.reverse_reverse,
+            List.append_assoc, List.cons_append, List.singleton_append]
+          have : (r2.reverse ++ [p2, p]).reverse = p :: p2 :: r2 := by simp
+          simp [this, hjoin]
+    rw [hfields]
+    simp only [outBuild]
     rw [parseName_expName _ _ hn1]
     simp only []
     rw [parseName_expName _ _ hn2]
     simp [hd, parseInt_showInt]
-
-
-
 
 theorem splitSubAux_pre (p : Char) (ps : Str) (s rest cur : Str) (n : Nat) (h : p ∉ s) :
     splitSubAux (p :: ps) (n + s.length) (s ++ rest) cur = splitSubAux (p :: ps) n rest (s.reverse ++ cur) := by
